@@ -1,6 +1,7 @@
 /* C20 behavioural cross-check: the same source is compiled as C99 and as C++11 and linked against every library variant.
    It creates parameter/key/sample objects through the public API and dumps every field it can see. All dumps must be identical. */
 #include <stdio.h>
+#include <stdlib.h>
 #include <stdint.h>
 #include <inttypes.h>
 #include "tfhe.h"
@@ -53,6 +54,29 @@ int main(void) {
         for (i = 0; i < N; i++) { int64_t d = (int64_t)(int32_t)((uint32_t)tr->coefsT[i] - (uint32_t)tb->coefsT[i]); if (d > 1 || d < -1) ok = 0; }
         destroy_LagrangeHalfCPolynomial(&box.obj);
         printf("LagrangeEmbedded sizeof=%d roundtrip_ok=%d guards_intact=%d\n", (int)sizeof(LagrangeHalfCPolynomial), ok, box.g0[0] == 0x5AA5C3C3A55A3C3CULL && box.g0[1] == 0x5AA5C3C3A55A3C3CULL && box.g1[0] == 0x5AA5C3C3A55A3C3CULL && box.g1[1] == 0x5AA5C3C3A55A3C3CULL); }
+      /* calling convention: the Lagrange-domain routines are hand-written assembly in two back-ends; a C caller keeps live values in the callee-saved
+         registers across the call.  (Explicit register variables pin the values; the empty asm statements make the compiler read them back.) */
+#if defined(__x86_64__) && defined(__GNUC__)
+      { LagrangeHalfCPolynomial *q = new_LagrangeHalfCPolynomial_array(3, N); int f; IntPolynomial_ifft(q, ia); TorusPolynomial_ifft(q + 1, tb); LagrangeHalfCPolynomialClear(q + 2);
+        for (f = 0; f < 6; f++) { int ok;
+            register uint64_t v12 __asm__("r12") = 0x1212121212121212ULL; register uint64_t v13 __asm__("r13") = 0x1313131313131313ULL; register uint64_t v14 __asm__("r14") = 0x1414141414141414ULL; register uint64_t v15 __asm__("r15") = 0x1515151515151515ULL; register uint64_t vbx __asm__("rbx") = 0x0b0b0b0b0b0b0b0bULL;
+            __asm__ volatile("" : "+r"(v12), "+r"(v13), "+r"(v14), "+r"(v15), "+r"(vbx));
+            switch (f) { case 0: LagrangeHalfCPolynomialMul(q + 2, q, q + 1); break; case 1: LagrangeHalfCPolynomialAddMul(q + 2, q, q + 1); break; case 2: LagrangeHalfCPolynomialSubMul(q + 2, q, q + 1); break;
+                         case 3: LagrangeHalfCPolynomialAddTo(q + 2, q + 1); break; case 4: TorusPolynomial_ifft(q + 2, tb); break; default: TorusPolynomial_fft(tr, q + 2); }
+            __asm__ volatile("" : "+r"(v12), "+r"(v13), "+r"(v14), "+r"(v15), "+r"(vbx));
+            ok = v12 == 0x1212121212121212ULL && v13 == 0x1313131313131313ULL && v14 == 0x1414141414141414ULL && v15 == 0x1515151515151515ULL && vbx == 0x0b0b0b0b0b0b0b0bULL;
+            printf("CalleeSaved fn=%d preserved=%d\n", f, ok); }
+        delete_LagrangeHalfCPolynomial_array(3, q); }
+#endif
+      /* polynomials that are views into caller-owned storage with only 4-byte alignment (the public structs are plain {N, pointer}) */
+      { int off; for (off = 1; off <= 3; off++) { int32_t *raw = (int32_t *)malloc((2 * N + 8) * sizeof(int32_t)); int ok = 1; IntPolynomial *iv = new_IntPolynomial(N); TorusPolynomial *tv = new_TorusPolynomial(N), *ex = new_TorusPolynomial(N), *r2 = new_TorusPolynomial(N);
+          int32_t *keep_i = iv->coefs; Torus32 *keep_t = tv->coefsT; LagrangeHalfCPolynomial *w = new_LagrangeHalfCPolynomial_array(3, N);
+          iv->coefs = raw + off; tv->coefsT = raw + N + 4 + off; for (i = 0; i < N; i++) { iv->coefs[i] = ia->coefs[i]; tv->coefsT[i] = tb->coefsT[i]; }
+          torusPolynomialMultKaratsuba(ex, ia, tb); IntPolynomial_ifft(w, iv); TorusPolynomial_ifft(w + 1, tv); LagrangeHalfCPolynomialMul(w + 2, w, w + 1); TorusPolynomial_fft(r2, w + 2);
+          for (i = 0; i < N; i++) { int64_t d = (int64_t)(int32_t)((uint32_t)r2->coefsT[i] - (uint32_t)ex->coefsT[i]); if (d > 2 || d < -2) ok = 0; }
+          torusPolynomialMultFFT(r2, iv, tv); for (i = 0; i < N; i++) { int64_t d = (int64_t)(int32_t)((uint32_t)r2->coefsT[i] - (uint32_t)ex->coefsT[i]); if (d > 2 || d < -2) ok = 0; }
+          printf("UnalignedViews offset_bytes=%d ok=%d\n", 4 * off, ok);
+          iv->coefs = keep_i; tv->coefsT = keep_t; delete_LagrangeHalfCPolynomial_array(3, w); delete_IntPolynomial(iv); delete_TorusPolynomial(tv); delete_TorusPolynomial(ex); delete_TorusPolynomial(r2); free(raw); } }
       delete_IntPolynomial(ia); delete_TorusPolynomial(tb); delete_TorusPolynomial(tr); }
     IntPolynomial *ip = new_IntPolynomial(8); TorusPolynomial *tq = new_TorusPolynomial(8); printf("Polynomials N=%d N=%d\n", ip->N, tq->N);
     delete_IntPolynomial(ip); delete_TorusPolynomial(tq); delete_LweKeySwitchKey(ks); delete_TGswSample(gs); delete_TLweSample(ts); delete_TGswKey(gk); delete_TGswParams(gp); delete_TLweParams(tp); delete_LweSample(ls); delete_LweKey(lk); delete_LweParams(lp);
